@@ -298,10 +298,7 @@ def r9(tree, rep):
     from ..astutil import local_defs
     RC = "src/wormhole/_rendezvous.py"
     fn = tree.func(RC, "RendezvousConnector", "stop")
-    dvars = [t.id for a in ast.walk(fn) if isinstance(a, ast.Assign) for t in a.targets if isinstance(t, ast.Name)
-             and any(isinstance(c, ast.Attribute) and c.attr == "stopService" for c in ast.walk(a.value))]
-    if len(dvars) != 1:
-        raise AnalysisError("RendezvousConnector.stop: the Deferred of stopService() is not kept in one local")
+    from ..deferredchain import expr_stages, runs_always_in
     from ..astutil import callback_function
     methods = tree.methods(RC, "RendezvousConnector")
 
@@ -318,7 +315,20 @@ def r9(tree, rep):
                 if d.startswith("self.") and d.count(".") == 1 and d.split(".")[1] in methods and tells_terminator(c.func, depth - 1):
                     return True
         return False
-    found, always, missing = runs_always(fn, dvars[0], tells_terminator)
+    # the chain that carries the stoppedRC callback: the last add* statement / expression of stop(), followed back through locals and
+    # through helper methods of the class that return a Deferred with stages already attached (`self._stop_connector().addBoth(..)`)
+    adds = [st.value for st in ast.walk(fn) if isinstance(st, ast.Expr) and isinstance(st.value, ast.Call)
+            and isinstance(st.value.func, ast.Attribute) and st.value.func.attr in ("addCallback", "addErrback", "addBoth", "addCallbacks")]
+    cands = [expr_stages(fn, a, methods) for a in adds]
+    cands = [c for c in cands if any((s_[1] is not None and tells_terminator(s_[1])) or (s_[2] is not None and tells_terminator(s_[2])) for s_ in c)]
+    if not cands:
+        raise AnalysisError("RendezvousConnector.stop: no callback chain that reaches T.stoppedRC was found")
+    stage_list = max(cands, key=len)
+    if not any(isinstance(x, ast.Attribute) and x.attr == "stopService" for m_ in [fn] + [methods[c.func.attr] for c in ast.walk(fn)
+               if isinstance(c, ast.Call) and isinstance(c.func, ast.Attribute) and isinstance(c.func.value, ast.Name) and c.func.value.id == "self"
+               and c.func.attr in methods] for x in ast.walk(m_)):
+        raise AnalysisError("RendezvousConnector.stop no longer stops the ClientService")
+    found, always, missing = runs_always_in(stage_list, tells_terminator)
     rep.check("C08.R9", "RendezvousConnector.stop: the callback that tells the Terminator stoppedRC runs on every outcome of stopService() "
               "(success and failure)", found and always, site(fn, RC), key="C08.R9:stop:_stopped-runs-always",
               what="RendezvousConnector.stop: when stopService() %s, T.stoppedRC is not called: the Terminator never leaves its stopping state "
